@@ -1,11 +1,13 @@
 """C07 — feature-dependent operations are impossible before the feature is negotiated."""
 from .srv import SrvFamily
+from .fe import FeFamily
 
 PROPS_MODULES = ["C07"]
 RULE = ("family `srv` (gate mode): for every gated request, negotiation histories in which exactly its protocol-feature bit is "
         "missing / exactly it is present / none / all, with VHOST_USER_F_PROTOCOL_FEATURES acknowledged or not, NEED_REPLY on/off, "
         "plus random orders of GET/SET_FEATURES, GET/SET_PROTOCOL_FEATURES interleaved with gated requests; the real "
         "BackendReqHandler is driven by the raw peer; observation = handler log, bytes written, result. non-trivial = distinct "
-        "scenarios in which at least one handler call or one refusal of a gated request was observed.")
+        "scenarios in which at least one handler call or one refusal of a gated request was observed. family `fe` (peer mode): the real "
+        "Frontend with random negotiation prefixes and every gated API call; a refused call must leave the wire untouched.")
 ASSUMPTIONS = ["the handler script stands for any application handler", "little-endian host"]
-FAMILIES = [SrvFamily(modes=("gate",))]
+FAMILIES = [SrvFamily(modes=("gate",)), FeFamily(modes=("peer",), quick=(0, 2500, 0), thorough=(0, 40000, 0))]
